@@ -481,6 +481,7 @@ fn finish(property: &str, tier: Tier, seed: u64, info: &PropInfo, mut sum: Summa
         real: info.real.clone(),
         stubs: info.stubs.clone(),
         exhaustive: false,
+        evaluations_are_steps: matches!(property, "C07" | "C17"),
         extra,
     });
     println!(
